@@ -48,11 +48,11 @@ def check(ctx, src):
     ctx.require(isinstance(delim, ast.Constant), "MANGLE_DELIM not found")
     D = delim.value
     sub = next((c for c in pyq.calls(um) if dotted(c.func) == "re.sub"), None)
-    ctx.require(sub is not None, "unmangle: re.sub not found")
+    ctx.need(sub is not None, "unmangle: re.sub not found")
     ctx.check(len(sub.args) == 3 and not sub.keywords, "MANGLE-CALL", f"{REL}|unmangle|re.sub arity", f"re.sub is called with {len(sub.args)} positional arguments and {[k.arg for k in sub.keywords]}: a fourth positional argument is `count`",
               REL, sub.lineno, witness='a name with more escapes than that number is only partly decoded: (hy.mangle (hy.unmangle (hy.mangle (* "+" 17)))) differs from the first mangling', detail="3 arguments")
     pat = sub.args[0]
-    ctx.require(isinstance(pat, ast.Call) and isinstance(pat.func, ast.Attribute) and pat.func.attr == "format" and isinstance(pat.func.value, ast.Constant) and norm(pat.args[0]) == "MANGLE_DELIM", "unmangle: pattern is not '<…>'.format(MANGLE_DELIM)")
+    ctx.need(isinstance(pat, ast.Call) and isinstance(pat.func, ast.Attribute) and pat.func.attr == "format" and isinstance(pat.func.value, ast.Constant) and norm(pat.args[0]) == "MANGLE_DELIM", "unmangle: pattern is not '<…>'.format(MANGLE_DELIM)")
     regex = pat.func.value.value.format(D)
     lits, classes, u_group = regex_facts(regex)
     name_alphabet = set("abcdefghijklmnopqrstuvwxyz0123456789_H")  # unicodedata names are [A-Z0-9 -]: lower(), ' '->'_', '-'->'H'
